@@ -1063,6 +1063,13 @@ func (gs *GossipSubRouter) handleGraft(p peer.ID, ctl *pb.ControlMessage) []*pb.
 	score := gs.score.Score(p)
 	now := time.Now()
 
+	// A GRAFT can only be honoured for a peer we have an outbound stream to:
+	// without one we can neither send to it nor learn when it goes away, and it
+	// would stay in the mesh for ever.
+	if _, connected := gs.peers[p]; !connected {
+		return nil
+	}
+
 	for _, graft := range ctl.GetGraft() {
 		topic := graft.GetTopicID()
 
